@@ -1104,7 +1104,12 @@ def mask_select(ex, st, a, m, node):
         i2 = ex.bvar("i2")
         ex.assume(st, z3.ForAll([j, i2], z3.Implies(z3.And(0 <= j, j < i2, i2 < c), pos(m.z, j) < pos(m.z, i2)),
                                 patterns=[z3.MultiPattern(pos(m.z, j), pos(m.z, i2))]))
+    mkey = ("mask_select", a.z.get_id(), m.z.get_id())
+    if mkey in st.memo and not ex.binder_vars:
+        return st.memo[mkey][0]
     r = ex.new_seq(st, a.t.elem, c, lambda jj: aa[pos(m.z, jj)], a.t.kind, "sel")
+    if not ex.binder_vars:
+        st.memo[mkey] = (r, a.z, m.z)
     return r
 
 
@@ -1118,7 +1123,13 @@ def gather(ex, st, a, idx, node):
                   z3.ForAll([j], z3.Implies(z3.And(0 <= j, j < ex.seq_len(idx)), z3.And(0 <= ia[j], ia[j] < n)),
                             patterns=[ia[j]]),
                   "safety", node, "gather indices in bounds")
-    return ex.new_seq(st, a.t.elem, ex.seq_len(idx), lambda jj: aa[ia[jj]], a.t.kind, "gat")
+    mkey = ("gather", a.z.get_id(), idx.z.get_id())
+    if mkey in st.memo and not ex.binder_vars:
+        return st.memo[mkey][0]
+    r = ex.new_seq(st, a.t.elem, ex.seq_len(idx), lambda jj: aa[ia[jj]], a.t.kind, "gat")
+    if not ex.binder_vars:
+        st.memo[mkey] = (r, a.z, idx.z)
+    return r
 
 
 def filtered_seq(ex, st, elem, n, j, cond, body):
